@@ -197,7 +197,7 @@ impl<'a> CaseRunner<'a> {
             self.rep.count("sessions_with_read_before_require_of_generator");
           } else if rec.roots.len() > k && match v {
             crate::refm::RefViol::HiddenRead { res, reader, writer } | crate::refm::RefViol::HiddenWrite { res, reader, writer } =>
-              fs.iter().any(|fd| fd.sig.starts_with("K4-") && fd.k4_key() == Some((*reader, *res, *writer))),
+              monitors::unrelated_reader_writer_pairs(rec, &self.drv.shadow).iter().any(|(x, r, w, legal_then)| *legal_then && (*x, *r, *w) == (*reader, *res, *writer)),
             _ => false,
           } {
             // same finding, seen through the second oracle: the store ends up with this reader/writer pair and no path
